@@ -29,6 +29,7 @@ def zone(winter, summer):
 
 ID = 'C17'
 TARGETS = ['SmppVerif.Props.C17']
+THOROUGH_ROUNDS = 5
 RULE = ('absolute: every quarter-hour offset -48..+48 and naive x {first/last day of every month, leap days, years '
         '2000/2069/2070/2099} x tenths 0..9, plus offsets outside the property domain (any minute, up to +-23:59) and '
         'random instants, and datetimes of both seasons through ONE rule-based tzinfo object per zone (offset depends on the date); relative: every whole day 0..441 x boundary seconds, random durations, negative and '
